@@ -229,3 +229,53 @@ CHECKS = [
 TRUSTED = ["finite-set cardinality: |A u B| = |A| + |B| iff A, B disjoint (inclusion-exclusion; Mathlib Finset.card_union_add_card_inter)"]
 ASSUMPTIONS = ["C14: conjunctions with 1..3 members are unrolled (BOUNDED in the member count; key sets are arbitrary); associativity / "
                "commutativity and the shape grid of the four other dictionary types are decided by the bounded/exhaustive arm"]
+
+
+def union_check(H):
+    """_union([d1, d2]) (the body of Conjunction._compute): keys = union of the keys, type = the most specific
+    dictionary type common to d1 and d2 — also when one of them has no key."""
+    def val_for(cls_name, t, m):
+        sh = V.TRef(t).shape
+        if cls_name in ("Gradients", "TensorDict", "EmptyTensorDict"):
+            return LTen(V.Shape([], sh.tail), lambda ix: z3.RealVal(0))
+        if cls_name == "Jacobians":
+            return LTen(V.Shape([m], sh.tail), lambda ix: z3.RealVal(0))
+        if cls_name == "GradientVectors":
+            return LTen(V.Shape([A.numel(t)]), lambda ix: z3.RealVal(0))
+        return LTen(V.Shape([m, A.numel(t)]), lambda ix: z3.RealVal(0))
+
+    def body(cx):
+        it = H.interp(cx)
+        mod = H.repo.modules[f"{TR}.tensor_dict"]
+        td = mod.classes["TensorDict"]
+        names = ["TensorDict", "Gradients", "Jacobians", "GradientVectors", "JacobianMatrices", "EmptyTensorDict"]
+        ia, ib = cx.choose(len(names), "clsA"), cx.choose(len(names), "clsB")
+        ca, cb = mod.classes[names[ia]], mod.classes[names[ib]]
+        m = z3.Int("m")
+        cx.assume(m >= 0)
+        Ka, Kb = A.tensor_list(cx, "Ka", distinct=True), A.tensor_list(cx, "Kb", distinct=True)
+        if names[ia] == "EmptyTensorDict":
+            cx.assume(Ka.length == 0)
+        if names[ib] == "EmptyTensorDict":
+            cx.assume(Kb.length == 0)
+        from .C02 import disjoint_seqs
+        disjoint_seqs(cx, Ka, Kb)
+        da = it.call(ca, [V.SymMap(Ka, lambda t: val_for(names[ia], t, m))] if names[ia] != "EmptyTensorDict" else [])
+        db = it.call(cb, [V.SymMap(Kb, lambda t: val_for(names[ib], t, m))] if names[ib] != "EmptyTensorDict" else [])
+        kind, out = call_catch(lambda: it.call(H.repo.get(f"{TR}._utils._union"), [[da, db]]))
+        cx.oblige("C14.union.no_raise", kind == "return", where=str(getattr(out, "where", "")))
+        if kind != "return":
+            return
+        common = [c for c in ca.mro(H.repo) if cb.issubclass_of(H.repo, c)]
+        minimal = [c for c in common if not any(d is not c and d.issubclass_of(H.repo, c) for d in common)]
+        cx.oblige(f"C14.union.type.{names[ia]}.{names[ib]}", len(minimal) == 1 and out.cls is minimal[0])
+        x = cx.fresh_const("x", TenS)
+        ina = P.map_dom(it, V.SymMap(Ka, lambda t: None))(x)
+        inb = P.map_dom(it, V.SymMap(Kb, lambda t: None))(x)
+        dom = P.map_dom(it, P.to_symmap(it, out.payload))(x) if not (isinstance(out.payload, dict) and not out.payload) else z3.BoolVal(False)
+        cx.oblige("C14.union.keys", dom == z3.Or(ina, inb))
+    H.explore(body, max_paths=4000)
+
+
+CHECKS.append(Check("union", [f"{TR}._utils._union", f"{TR}.tensor_dict._least_common_ancestor", f"{BASE}.Conjunction._compute"], union_check,
+                    replay_keys=["C14.output"]))
